@@ -295,10 +295,12 @@ class TransModel:
         return self.model[d]
 
 
-def _solve(asserts, ctx, rlimit):
+def _solve(asserts, ctx, rlimit, seed=None):
     s = z3.Solver(ctx=ctx)
     s.set("rlimit", rlimit)
     s.set("timeout", VC_TIMEOUT_MS)
+    if seed is not None:
+        s.set("random_seed", seed)
     for a in asserts:
         s.add(a)
     return s.check(), s
@@ -366,6 +368,13 @@ def discharge(vc: VC):
             r, s, how = r2, s2, "ite-case-split"
         else:
             r, s = _solve(asserts, ctx, VC_RLIMIT)
+            # nonlinear queries near the budget are unstable (the same text is decided in seconds or not at all depending on the
+            # solver's internal choices): a few more attempts with other random seeds; any decided attempt is a sound verdict
+            for seed in (7, 101, 4242):
+                if r != z3.unknown:
+                    break
+                r, s = _solve(asserts, ctx, VC_RLIMIT, seed)
+                how = f"retry(seed={seed})"
     STATS.solver_s += time.time() - t0
     vc.seconds = time.time() - t0
     vc.reason = how
